@@ -3,14 +3,24 @@
 package execute
 
 import (
+	"context"
 	"fmt"
 	"sort"
 	"strings"
 	"testing"
 	"time"
 
+	commonconfig "github.com/smartcontractkit/chainlink-common/pkg/config"
+	"github.com/smartcontractkit/libocr/commontypes"
+	"github.com/smartcontractkit/libocr/offchainreporting2plus/ocr3types"
+	libocrtypes "github.com/smartcontractkit/libocr/ragep2p/types"
+
 	"github.com/smartcontractkit/chainlink-ccip/execute/exectypes"
+	"github.com/smartcontractkit/chainlink-ccip/execute/tokendata"
+	"github.com/smartcontractkit/chainlink-ccip/internal/mocks"
+	"github.com/smartcontractkit/chainlink-ccip/internal/plugincommon"
 	cciptypes "github.com/smartcontractkit/chainlink-ccip/pkg/types/ccipocr3"
+	"github.com/smartcontractkit/chainlink-ccip/pluginconfig"
 )
 
 // C17: truncateObservation / truncateLastCommit / truncateChain with the real Encode as the size.
@@ -230,8 +240,8 @@ func (v vC17Vec) Geq(t vC17Vec) bool { // t reachable from v
 }
 
 // the harness's own projection of the original observation on a vector: used only to measure encoded sizes
-func vC17Project(seed uint64, v vC17Vec) exectypes.Observation {
-	o, _ := vC17Gen(seed)
+func vC17Project(gen func() exectypes.Observation, v vC17Vec) exectypes.Observation {
+	o := gen()
 	dead := map[cciptypes.Bytes32]bool{}
 	touched := false
 	for c, l := range o.CommitReports {
@@ -274,7 +284,7 @@ func vC17Project(seed uint64, v vC17Vec) exectypes.Observation {
 }
 
 type vC17Sizer struct {
-	seed uint64
+	gen  func() exectypes.Observation
 	memo map[string]int
 	used map[string]vC17Vec
 }
@@ -284,7 +294,7 @@ func (z *vC17Sizer) Size(v vC17Vec) int {
 	if s, ok := z.memo[k]; ok {
 		return s
 	}
-	b, err := vC17Project(z.seed, v).Encode()
+	b, err := vC17Project(z.gen, v).Encode()
 	if err != nil {
 		panic(err)
 	}
@@ -341,7 +351,7 @@ func TestVerif_C17_trunc(t *testing.T) {
 		lr := vNewRand(r.U64())
 		obs0, cls := vC17Gen(seed)
 		v0 := vC17VecOf(obs0)
-		z := &vC17Sizer{seed: seed, memo: map[string]int{}, used: map[string]vC17Vec{}}
+		z := &vC17Sizer{gen: func() exectypes.Observation { o, _ := vC17Gen(seed); return o }, memo: map[string]int{}, used: map[string]vC17Vec{}}
 		z.Use(v0)
 		// sizes along the "always the smallest chain" path give the interesting limits
 		var sizes []int
@@ -476,5 +486,179 @@ func TestVerif_C17_step(t *testing.T) {
 		label := fmt.Sprintf("%s/%s/%d-reports", []string{"lastCommit", "chain"}[kind], cls, len(before.CommitReports[chain]))
 		sink.Emit("C17_step", label, len(before.CommitReports[chain]) > 0, cPair(in, out),
 			map[string]any{"seed": seed, "kind": kind, "chain": chain, "reports": vC17VecOf(before).Key()})
+	}
+}
+
+// ---------------------------------------------------------------------------------------------------------------
+// End to end: execute.Plugin.Observation in the GetMessages phase against the advertised maxObservationLength.
+// The previous outcome holds the pending commit reports, the scripted reader returns messages big enough for the
+// observation to straddle the limit; the observation the plugin returns is judged like a truncateObservation result
+// (same judge), the untruncated observation being rebuilt from the plugin's own building blocks.
+
+type vC17Costly struct{ ids map[cciptypes.Bytes32]bool }
+
+func (c vC17Costly) Observe(_ context.Context, msgs []cciptypes.Message, _ map[cciptypes.Bytes32]time.Time) ([]cciptypes.Bytes32, error) {
+	var out []cciptypes.Bytes32
+	for _, m := range msgs {
+		if c.ids[m.Header.MessageID] {
+			out = append(out, m.Header.MessageID)
+		}
+	}
+	sort.Slice(out, func(i, j int) bool { return string(out[i][:]) < string(out[j][:]) })
+	return out, nil
+}
+
+func TestVerif_C17_observation(t *testing.T) {
+	ctx := context.Background()
+	r := vNewRand(vSeed() + 19)
+	n := vEnvInt("VERIF_N", 30)
+	sink := vOpenSink("C17_observation")
+	defer sink.Close()
+	for i := 0; i < n; i++ {
+		lr := vNewRand(r.U64())
+		cls := vPick(lr, []string{"fits", "overflow", "overflow", "overflow-big", "one-report-too-big"})
+		// pending reports of the previous outcome and the messages behind them
+		nch := lr.Range(1, 3)
+		var pending []exectypes.CommitData
+		msgs := map[cciptypes.ChainSelector]map[cciptypes.SeqNum]cciptypes.Message{}
+		costly := map[cciptypes.Bytes32]bool{}
+		root := uint64(0)
+		for k := 0; k < nch; k++ {
+			c := cciptypes.ChainSelector(k + 1)
+			msgs[c] = map[cciptypes.SeqNum]cciptypes.Message{}
+			next := cciptypes.SeqNum(lr.Range(1, 50))
+			for j := lr.Range(1, 3); j > 0; j-- {
+				lo := next + cciptypes.SeqNum(lr.Intn(2))
+				hi := lo + cciptypes.SeqNum(lr.Intn(3))
+				next = hi + 1
+				root++
+				pending = append(pending, exectypes.CommitData{SourceChain: c, Timestamp: vC17T0.Add(time.Duration(root) * time.Second),
+					BlockNum: root, MerkleRoot: vC17B32(root), SequenceNumberRange: cciptypes.NewSeqNumRange(lo, hi)})
+				for s := lo; s <= hi; s++ {
+					size := map[string][]int{"fits": {100, 2000}, "overflow": {20000, 60000, 90000}, "overflow-big": {90000, 150000},
+						"one-report-too-big": {300000, 400000}}[cls]
+					data := make([]byte, vPick(lr, size))
+					id := vC17B32(uint64(c)*100000 + uint64(s))
+					msgs[c][s] = cciptypes.Message{Header: cciptypes.RampMessageHeader{MessageID: id, SourceChainSelector: c,
+						DestChainSelector: 900, SequenceNumber: s}, Data: data,
+						FeeTokenAmount: cciptypes.NewBigIntFromInt64(1), FeeValueJuels: cciptypes.NewBigIntFromInt64(1)}
+					if lr.Chance(1, 3) {
+						costly[id] = true
+					}
+				}
+			}
+		}
+		prev, err := exectypes.NewOutcome(exectypes.GetCommitReports, pending, cciptypes.ExecutePluginReport{}).Encode()
+		if err != nil {
+			t.Fatal(err)
+		}
+		rd := &vCCIPReader{MsgsFn: func(chain cciptypes.ChainSelector, q cciptypes.SeqNumRange) ([]cciptypes.Message, error) {
+			var out []cciptypes.Message
+			for s := q.Start(); s <= q.End(); s++ {
+				if m, ok := msgs[chain][s]; ok {
+					out = append(out, m)
+				}
+			}
+			return out, nil
+		}}
+		hc := vNewHomeChain()
+		p2p := map[commontypes.OracleID]libocrtypes.PeerID{0: vPeer(0)}
+		for c := cciptypes.ChainSelector(1); c <= 3; c++ {
+			hc.SetChain(c, 1, []libocrtypes.PeerID{vPeer(0)})
+		}
+		hc.SetChain(900, 1, []libocrtypes.PeerID{vPeer(0)})
+		p := &Plugin{
+			reportingCfg: ocr3types.ReportingPluginConfig{OracleID: 0, F: 1, N: 4},
+			offchainCfg: pluginconfig.ExecuteOffchainConfig{BatchGasLimit: 100000000,
+				MessageVisibilityInterval: *commonconfig.MustNewDuration(8 * time.Hour)},
+			destChain: 900, ccipReader: rd, reportCodec: mocks.NewExecutePluginJSONReportCodec(),
+			msgHasher: mocks.NewMessageHasher(), homeChain: hc,
+			chainSupport:          plugincommon.NewChainSupport(mocks.NullLogger, hc, p2p, 0, 900),
+			oracleIDToP2pID:       p2p,
+			tokenDataObserver:     &tokendata.NoopTokenDataObserver{},
+			costlyMessageObserver: vC17Costly{costly},
+			lggr:                  mocks.NullLogger,
+		}
+		// the observation before truncation, from the plugin's own building blocks
+		gen := func() exectypes.Observation {
+			po, err := exectypes.DecodeOutcome(prev)
+			if err != nil {
+				t.Fatal(err)
+			}
+			cache := regroup(po.PendingCommitReports)
+			mo, err := readAllMessages(ctx, rd, cache)
+			if err != nil {
+				t.Fatal(err)
+			}
+			td, _ := p.tokenDataObserver.Observe(ctx, mo)
+			cm, _ := p.costlyMessageObserver.Observe(ctx, mo.Flatten(), nil)
+			return exectypes.Observation{CommitReports: cache, Messages: mo, TokenData: td, CostlyMessages: cm}
+		}
+		full := gen()
+		v0 := vC17VecOf(full)
+		z := &vC17Sizer{gen: gen, memo: map[string]int{}, used: map[string]vC17Vec{}}
+		z.Use(v0)
+		tab := &vC17Tab{vNewIntern(), vNewIntern()}
+		in0 := tab.Obs(full)
+		max := maxObservationLength
+		var out string
+		var target vC17Vec
+		outSize := 0
+		isErr, isPanic := false, false
+		func() {
+			defer func() {
+				if rec := recover(); rec != nil {
+					isPanic = true
+				}
+			}()
+			b, err := p.Observation(ctx, ocr3types.OutcomeContext{SeqNr: 2, PreviousOutcome: prev}, nil)
+			if err != nil {
+				isErr = true
+				return
+			}
+			outSize = len(b)
+			res, err := exectypes.DecodeObservation(b)
+			if err != nil {
+				isErr = true
+				return
+			}
+			target = vC17VecOf(res)
+			out = "(Ok " + tab.Obs(res) + ")"
+		}()
+		var picks []cciptypes.ChainSelector
+		switch {
+		case isPanic:
+			out = "Panic"
+		case isErr:
+			out = "Err"
+			picks, _ = vC17Search(z, v0, nil, max, true, map[string]bool{})
+		default:
+			picks, _ = vC17Search(z, v0, target, max, true, map[string]bool{})
+		}
+		v := v0
+		for _, c := range picks {
+			v = v.Dec(c)
+			z.Use(v)
+		}
+		ps := make([]string, len(picks))
+		for k, c := range picks {
+			ps[k] = cN(uint64(c))
+		}
+		var tabS []string
+		keys := make([]string, 0, len(z.used))
+		for k := range z.used {
+			keys = append(keys, k)
+		}
+		sort.Strings(keys)
+		for _, k := range keys {
+			if len(z.used[k]) == 0 {
+				continue
+			}
+			tabS = append(tabS, cPair(z.used[k].Coq(), cNi(z.Size(z.used[k]))))
+		}
+		sink.Emit("C17_observation", cls, len(picks) > 0,
+			cPair(cTup(in0, cList(tabS), cList([]string{cPair(cZ(int64(max)), cList(ps))})), cList([]string{cPair(out, cNi(outSize))})),
+			map[string]any{"class": cls, "reports": v0.Key(), "fullSize": z.Size(v0), "limit": max, "cuts": picks, "size": outSize,
+				"result": out[:vMin(len(out), 12)]})
 	}
 }
